@@ -58,6 +58,10 @@ def rules(chk, db, scope=in_scope, prefix=''):
 def run(chk, db):
     facts.gate(chk, db, ['nop/base/', 'nop/utility/', 'nop/rpc/', 'nop/protocol.h'])
     nfn, nsites = rules(chk, db)
+    # "a Write whose Prepare fails writes nothing" presupposes that every Serializer flavour goes through the common Write
+    from . import c06
+    chk.rule('PF', 'every Serializer flavour writes through SerializerCommon::Write: Prepare(Size(value)) succeeds before the first byte is written', minimum=4)
+    c06.prepare_first(chk, db, 'PF')
     chk.explanation = (
         'Abstract interpretation (status local -> Untested/Ok/Failed) of %d function instances under include/nop; every '
         'status-producing call site (%d distinct file:line:col sites) is a fault position and is checked against SD1-SD4. '
